@@ -147,6 +147,11 @@ func (s *s1) checkC03(i int, out *TxnOutcome) {
 	if ref.Edge != "" {
 		e.Probes["c03_edge_skipped"]++
 		e.Probes["edge:"+ref.Edge]++
+		if strings.Contains(ref.Edge, "range") {
+			// the database now holds an integer beyond 2^53: it fits 64 bits, but the
+			// harness's own JSON handling (float64) cannot represent it faithfully
+			e.Abort("database holds an integer beyond 2^53 (outside the harness's reach)")
+		}
 		return
 	}
 	e.Probes["c03_accepted_txn_compared"]++
